@@ -50,11 +50,20 @@ def run(ctx):
             ctx.report(V1, f, ns[0] if ns else f['body'], sf + ' raw', 'the raw memory pointer is used in an unexpected function')
     rs = ctx.fn('Teakra::Teakra::Impl::Reset()')
     ctx.inst(V1)
-    ms = [n for n in walk(rs['body']) if n.get('k') == 'call' and short_fn(n.get('fn', '')) in ('memset', 'std::memset')]
     dsz = ctx.F['vars'].get('Teakra::DspMemorySize')
-    if len(ms) != 1 or render(ms[0]['args'][0], rs) != '(. f:Teakra::Teakra::Impl::shared_memory %s::raw)' % SM or const_value(ms[0]['args'][1]) != 0 \
-            or const_value(ms[0]['args'][2]) != 0x80000 or not dsz or dsz.get('cv') != 0x80000:
-        ctx.report(V1, rs, rs['body'], 'Reset memset', 'Reset does not clear exactly DspMemorySize (0x80000) bytes of the shared memory')
+    RAWF = '(. f:Teakra::Teakra::Impl::shared_memory %s::raw)' % SM
+    clears = []
+    for n in walk(rs['body']):
+        if n.get('k') != 'call':
+            continue
+        sf_ = short_fn(n.get('fn', ''))
+        a_ = n.get('args', [])
+        if sf_ in ('memset', 'std::memset') and len(a_) == 3:
+            clears.append((render(a_[0], rs), const_value(a_[1]), const_value(a_[2])))
+        elif sf_.startswith('std::fill_n') and len(a_) == 3:
+            clears.append((render(a_[0], rs), const_value(a_[2]), const_value(a_[1])))     # one byte per element of raw
+    if clears != [(RAWF, 0, 0x80000)] or not dsz or dsz.get('cv') != 0x80000:
+        ctx.report(V1, rs, rs['body'], 'Reset memset', 'Reset does not clear exactly DspMemorySize (0x80000) bytes of the shared memory: %s' % clears)
     # ---- V2
     rw = ctx.fn(SM + '::ReadWord(unsigned int) const')
     ww = ctx.fn(SM + '::WriteWord(unsigned int,unsigned short)')
@@ -73,24 +82,34 @@ def run(ctx):
     dr = ctx.fn(MI + '::DataRead(unsigned short,bool)')
     dw = ctx.fn(MI + '::DataWrite(unsigned short,unsigned short,bool)')
     U = 'f:%s::memory_interface_unit' % MI
-    G = '(&& (! $%d) (call %s::InMMIO on %s $0))'
-    for f, bp, mm, wd in ((dr, 1, '(return (call Teakra::MMIORegion::Read on f:%s::mmio (call %s::ToMMIO on %s $0)))' % (MI, MIU, U),
-                           '(return (call %s::ReadWord on f:%s::shared_memory (call %s::ConvertDataAddress on %s $0)))' % (SM, MI, MIU, U)),
+    from .. import summ, boolform
+    INM = boolform.A('(call %s::InMMIO on %s $0)' % (MIU, U))
+    for f, bp, mm, wd in ((dr, 1, '(call Teakra::MMIORegion::Read on f:%s::mmio (call %s::ToMMIO on %s $0))' % (MI, MIU, U),
+                           '(call %s::ReadWord on f:%s::shared_memory (call %s::ConvertDataAddress on %s $0))' % (SM, MI, MIU, U)),
                           (dw, 2, '(call Teakra::MMIORegion::Write on f:%s::mmio (call %s::ToMMIO on %s $0) $1)' % (MI, MIU, U),
                            '(call %s::WriteWord on f:%s::shared_memory (call %s::ConvertDataAddress on %s $0) $1)' % (SM, MI, MIU, U))):
         ctx.inst(V3)
-        t = render_stmt(f['body'], f)
-        top = [s for s in f['body'].get('body', []) if s.get('k') == 'if']
-        r = Renderer(f)
-        if len(top) != 1 or r.r(top[0]['cond']) != G % (bp, MIU, U):
-            ctx.report(V3, f, f['body'], short_fn(f['id']) + ' guard', 'MMIO branch is not taken exactly under InMMIO(address) && !bypass_mmio: ' + (r.r(top[0]['cond']) if top else 'no branch'))
-            continue
-        th = r.s(top[0]['then'])
-        if mm not in th or 'WriteWord' in th or 'ReadWord' in th:
-            ctx.report(V3, f, top[0]['then'], short_fn(f['id']) + ' MMIO arm', 'the MMIO arm does not go to the MMIO region only (memory underneath must stay untouched): ' + th[:200])
-        rest = ' '.join(r.s(s) for s in f['body']['body'] if s is not top[0])
-        if wd not in rest or 'MMIORegion' in rest:
-            ctx.report(V3, f, f['body'], short_fn(f['id']) + ' memory arm', 'the memory arm is not ReadWord/WriteWord(ConvertDataAddress(address)): ' + rest[:200])
+        SMy = summ.summary(ctx, f, asserts='ignore')
+        MMIO_ARM = boolform.all_of(INM, boolform.neg(boolform.A('$%d' % bp)))
+        eff = SMy.effect_conditions(lambda e: e[0] == 'call' and ('MMIORegion::' in e[1] or '%s::ReadWord' % SM in e[1] or '%s::WriteWord' % SM in e[1]))
+        got = {e[1]: c for e, c in eff.items()}
+        name = short_fn(f['id'])
+        # accesses nested in one another render as separate calls; keep the outermost spelling of each arm
+        mm_c = [c for t, c in got.items() if t == mm]
+        wd_c = [c for t, c in got.items() if t == wd]
+        others = [t for t in got if t not in (mm, wd)]
+        if others:
+            ctx.report(V3, f, f['body'], name + ' accesses', 'unexpected memory / MMIO access: %s' % [o[:120] for o in others][:2])
+        if len(mm_c) != 1 or boolform.equivalent(mm_c[0], MMIO_ARM) is not True:
+            ctx.report(V3, f, f['body'], name + ' guard', 'the MMIO region is not accessed exactly under InMMIO(address) && !bypass_mmio: %s'
+                       % (boolform.show(mm_c[0])[:200] if mm_c else 'no MMIO access with ToMMIO(address)'))
+        if len(wd_c) != 1 or boolform.equivalent(wd_c[0], boolform.neg(MMIO_ARM)) is not True:
+            ctx.report(V3, f, f['body'], name + ' memory arm', 'DSP memory is not accessed through ConvertDataAddress(address) exactly when the MMIO arm is not taken '
+                       '(the memory underneath the window must stay untouched): %s' % (boolform.show(wd_c[0])[:200] if wd_c else 'no such access'))
+        if f is dr:
+            rets = SMy.returns()
+            if set(rets) != {mm, wd}:
+                ctx.report(V3, f, f['body'], name + ' value', 'DataRead does not return what the selected arm read: %s' % [x[:100] for x in rets])
     ra = ctx.fn(MI + '::DataReadA32(unsigned int) const')
     wa = ctx.fn(MI + '::DataWriteA32(unsigned int,unsigned short)')
     ctx.inst(V3)
@@ -126,10 +145,27 @@ def run(ctx):
     consts = {k: (vs.get(k) or {}).get('cv') for k in (MIU + '::DataMemoryOffset', MIU + '::DataMemoryBankSize', MIU + '::MMIOSize', 'Teakra::DspMemorySize')}
     if list(consts.values()) != [0x20000, 0x10000, 0x800, 0x80000]:
         ctx.report(V4, ('src/memory_interface.h', MIU, 0), 0, 'layout constants', 'layout constants are %s' % consts)
-    dmo = [v for k, v in vs.items() if v['name'] == 'DataMemoryOffset' and 'Dma' in v.get('func', '')]
+    # the constant the DMA engine adds to a DSP-side address before it touches the shared memory (whatever it is called)
+    dmo = set()
+    n_dma = 0
+    for fid_, g_ in ctx.F['functions'].items():
+        if not (g_.get('cls') in ('Teakra::Dma::Channel', 'Teakra::Dma') and is_library(g_)):
+            continue
+        for n in walk(g_.get('body')):
+            if n.get('k') == 'call' and n.get('cls') == SM and n.get('name') in ('ReadWord', 'WriteWord') and n.get('args'):
+                n_dma += 1
+                a_ = unwrap_casts(n['args'][0])
+                k_ = None
+                if isinstance(a_, dict) and a_.get('k') == 'bin' and a_.get('op') == '+':
+                    for side in (a_.get('lhs'), a_.get('rhs')):
+                        cv_ = const_value(unwrap_casts(side)) if isinstance(unwrap_casts(side), dict) else None
+                        if cv_ is not None:
+                            k_ = cv_
+                dmo.add(k_)
     ctx.inst(V4)
-    if not dmo or dmo[0].get('cv') != consts[MIU + '::DataMemoryOffset']:
-        ctx.report(V4, ('src/dma.cpp', 'Teakra::Dma::Channel::Tick', 0), 0, 'Dma DataMemoryOffset', 'the DMA engine places data memory at %s, the memory interface at 0x20000' % (dmo and dmo[0].get('cv')))
+    ctx.require(n_dma >= 4, 'DMA accesses to the shared memory not found (%d)' % n_dma)
+    if dmo != {consts[MIU + '::DataMemoryOffset']}:
+        ctx.report(V4, ('src/dma.cpp', 'Teakra::Dma::Channel::Tick', 0), 0, 'Dma DataMemoryOffset', 'the DMA engine places data memory at %s, the memory interface at 0x20000' % sorted(dmo, key=str))
     rec = ctx.record(SM)
     own = [fl for fl in rec['fields'] if fl['name'] == 'own_memory']
     ctx.inst(V4)
